@@ -628,6 +628,7 @@ func instrumentPackage(fset *token.FileSet, imp types.Importer, lp *listPkg, pi 
 	}
 
 	// 4. generated reset file
+	typePkgs = map[string]string{}
 	var gen bytes.Buffer
 	fmt.Fprintf(&gen, "// Code generated by verif-instrument. DO NOT EDIT.\n\npackage %s\n\n", pkg.Name())
 	var body bytes.Buffer
@@ -732,6 +733,16 @@ func instrumentPackage(fset *token.FileSet, imp types.Importer, lp *listPkg, pi 
 			impLines = append(impLines, fmt.Sprintf("\t%s %q\n", n, p))
 		}
 	}
+	for path, alias := range typePkgs {
+		if path == "sync" {
+			path = "verif/simrt/ssync"
+		} else if path == "sync/atomic" {
+			path = "verif/simrt/satomic"
+		}
+		if strings.Contains(bs, alias+".") {
+			impLines = append(impLines, fmt.Sprintf("\t%s %q\n", alias, path))
+		}
+	}
 	if strings.Contains(bs, "simrt_V.") {
 		impLines = append(impLines, "\tsimrt_V \"verif/simrt\"\n")
 	}
@@ -786,12 +797,26 @@ func editedRange(src []byte, edits []edit, start, end int) string {
 	return string(res)
 }
 
+// typePkgs collects the packages named in generated type strings: they are imported in the generated
+// file under private aliases (t_<name>), independent of how the package's own files name them.
+var typePkgs = map[string]string{} // import path -> alias
+
 func qualifier(pkg *types.Package) types.Qualifier {
 	return func(p *types.Package) string {
 		if p == pkg {
 			return ""
 		}
-		return p.Name()
+		alias := "t_" + p.Name()
+		for path, a := range typePkgs {
+			if a == alias && path != p.Path() {
+				alias = fmt.Sprintf("t_%s_%d", p.Name(), len(typePkgs))
+			}
+		}
+		if a, ok := typePkgs[p.Path()]; ok {
+			return a
+		}
+		typePkgs[p.Path()] = alias
+		return alias
 	}
 }
 
